@@ -40,6 +40,7 @@ def equiv_check(prop, tier, seed, jobs, pairs, mcs=None, mc_generated=None, job_
     V = C.Verdicts(prop)
     docs, meta = [], []
     failed_jobs = set()
+    skipped = []
     for p in pairs:
         ta, ra = _get(results, p["a"])
         tb, rb = _get(results, p["b"])
@@ -51,6 +52,9 @@ def equiv_check(prop, tier, seed, jobs, pairs, mcs=None, mc_generated=None, job_
                 failed_jobs.add((jid, side))
                 err = r.get("error", {})
                 if p.get("baseline_may_fail") and side == "a":
+                    continue
+                if C.documented_rejection(err):
+                    skipped.append({"label": p.get("label"), "reason": err.get("msg")})
                     continue
                 key = f"exception.{err.get('type')}"
                 V.add(key, p.get("scenario"), {"label": p.get("label"), "side": side, "error": err, "job": jobs[jid] if jid < len(jobs) else None})
@@ -82,7 +86,8 @@ def equiv_check(prop, tier, seed, jobs, pairs, mcs=None, mc_generated=None, job_
                    "result tables judged by TLC with spec/Equiv.tla; distinct = distinct pair labels. " + rule_text,
            "pairs_judged": len(docs), "rows_compared": compared_rows, "jobs_failed": len(failed_jobs),
            "model_instances": mc["instances"], "model_states_generated": mc["states"], "pair_jvms": tstats["jvms"],
-           "known_findings_hit": V.known_hits, "exhaustive": False}
+           "known_findings_hit": V.known_hits, "exhaustive": False,
+           "pairs_skipped_documented_rejection": skipped[:20], "n_pairs_skipped": len(skipped)}
     if extra:
         cov.update(extra)
     C.write_evidence(prop, tier, seed, level, cov, time.time() - t0, len(V.new),
